@@ -152,7 +152,8 @@ def gen_cases(tier: str, seed: int) -> List[Dict]:
                 a = S.make_poly_spec("a", names, ea, shape_pair[0], rng, na, mode="raw", zero_prob=0.1, literal_prob=0.2)
                 b = S.make_poly_spec("b", names, eb, shape_pair[1], rng, na, mode="raw", zero_prob=0.1, literal_prob=0.2, share_from=S.spec_atoms(a) or None)
                 n += 1
-                cases.append({"id": "%s-%03d-pair" % (PROP, n), "op": "compare", "operands": [a, b], "options": opt, "limits": lim})
+                mixed = len({sum(e) for e in exps}) > 1 and len(names) > 1  # graded and ungraded orders rank these monomials differently
+                cases.append({"id": "%s-%03d-pair%s" % (PROP, n, "-mixeddeg" if mixed else ""), "op": "compare", "operands": [a, b], "options": opt, "limits": lim})
     # the same comparisons on unsigned coefficient dtypes (native fidelity runs / replays; the symbolic run is dtype-agnostic)
     for dt in ("uint8", "uint32", "uint16"):
         for names, exps in monosets[:3]:
@@ -164,6 +165,25 @@ def gen_cases(tier: str, seed: int) -> List[Dict]:
                 sp["slots"] = [[abs(x) if not isinstance(x, str) else x for x in col] for col in sp["slots"]]
             n += 1
             cases.append({"id": "%s-%03d-pair-%s" % (PROP, n, dt), "op": "compare", "operands": [a, b], "options": rng.choice(settings), "limits": lim})
+    # native dtype layer: integer dtype pairs (numpy compares mixed signed/unsigned integers exactly) with coefficients at the dtype
+    # edges, differing in the last unit; any detour through float64 on the way to the comparison shows here
+    pairs = [("uint64", "int64"), ("uint64", "uint64"), ("int64", "int64"), ("uint32", "int64"), ("uint8", "int8"), ("uint16", "int32"), ("int64", "uint64")]
+    for d1, d2 in pairs if not quick else pairs[:3] + [rng.choice(pairs[3:])]:
+        for names, exps in (monosets[1], monosets[2]):
+            opt = rng.choice(settings)
+            shape = rng.choice([(), (2,)])
+            a = S.extreme_poly_spec(names, exps, shape, d1, rng, zero_prob=0.1)
+            b = S.extreme_poly_spec(names, exps, shape, d2, rng, zero_prob=0.1)
+            # make some leading coefficients agree up to the last unit so that the decision is taken there
+            both = [v for v in S.dtype_extremes(d1) if v in S.dtype_extremes(d2) or 0 < v <= min(numpy.iinfo(d1).max, numpy.iinfo(d2).max)]
+            big = max(both)
+            for col_a, col_b in zip(a["slots"][1:], b["slots"][1:]):
+                for i in range(len(col_a)):
+                    col_a[i], col_b[i] = big, big
+            a["slots"][0] = [big for _ in a["slots"][0]]
+            b["slots"][0] = [big - 1 for _ in b["slots"][0]]
+            n += 1
+            cases.append({"id": "%s-%03d-pair-dtype-%s-%s" % (PROP, n, d1, d2), "op": "compare", "operands": [a, b], "options": opt, "limits": lim})
     # operands whose names are stored in non-index order (leaves of numpoly.symbols("q1 q0")): the documented order is by name
     for opt in settings:
         for names, exps in [(("q1", "q0"), [[1, 0], [0, 1], [0, 0]]), (("q2", "q0", "q1"), [[1, 0, 0], [0, 1, 0], [0, 0, 1]]), (("q10", "q2"), [[1, 0], [0, 1], [1, 1]])]:
